@@ -479,6 +479,12 @@ func (e *mvEnv) round(gapSlots int64) {
 		setTs(m, uint64(time.Now().Unix()+3600)/uint64(bt)*uint64(bt))
 		e.rehashSign(m, K)
 	})
+	// 30-40 s ahead of the wall clock, on a slot start, signed by the pillar elected for that slot: only the clock
+	// check objects (MomentumFutureSeconds = 10)
+	soon := (time.Now().Unix()+30)/bt*bt + bt
+	if sp, err := e.z.Consensus().GetMomentumProducer(time.Unix(soon, 0)); err == nil && keyOf(*sp) != nil {
+		add("ts=now+30s+resign-elected", func(m *nom.Momentum) { setTs(m, uint64(soon)); e.rehashSign(m, keyOf(*sp)) })
+	}
 	add("data=01+resign", func(m *nom.Momentum) { m.Data = []byte{1}; e.rehashSign(m, K) })
 	add("changesHash-flip+resign", func(m *nom.Momentum) { m.ChangesHash = flipBit(m.ChangesHash, c.R.Intn(256)); e.rehashSign(m, K) })
 	// valid momentums signed by somebody who is not elected for the slot
